@@ -18,6 +18,13 @@ fn fmt(r: &EventRecord) -> String {
 }
 
 pub fn run(text: &str, cases_path: &str, out: &mut impl Write) {
+    // end-to-end cases ("c05 <id> ... hist=...") are account histories: same harness as C04
+    let (acct_lines, text): (Vec<&str>, Vec<&str>) = text.lines().partition(|l| l.contains(" hist="));
+    if !acct_lines.is_empty() {
+        crate::acct::run(&acct_lines.join("\n"), cases_path, out);
+    }
+    let text = text.join("\n");
+    let text = text.as_str();
     let rt = rt();
     let base = std::path::Path::new(cases_path).parent().unwrap().join("data-c05");
     let _ = std::fs::remove_dir_all(&base);
